@@ -387,6 +387,9 @@ static TbCase genTb(bool condOnly)
     if (!condOnly && G::pct(25))
     {
       c.bayes = 1;
+      // undefined data values make KrigingSystem::_bayesPreCalculations read past its neighbourhood vector (see report)
+      for (int v = 0; v < c.nvar; v++)
+        for (int k = 0; k < nd; k++) if (isNA(c.z[(size_t)v * nd + k])) c.z[(size_t)v * nd + k] = c.means[(size_t)v] + 0.5 * k;
       c.drift = G::pct(70) ? 0 : 1;
       int nf = (c.drift == 0) ? 1 : 1 + ndim;
       nf *= c.nvar;
@@ -479,8 +482,9 @@ static void runTbRepro(const TbCase& c, Ctx& ctx)
   if (e1 != e2) { ctx.fail("repro:" + api + ":status", fmt("error codes %d then %d for the same call", e1, e2)); return; }
   if (e1 != 0)
   {
-    // a rejection must be reproducible and leave no output; it is not expected for generated inputs
-    ctx.fail("error:" + api, fmt("the call returned error %d on a valid input", e1));
+    // an error return is the documented way to refuse an input (e.g. simbayes with fewer data than drift terms):
+    // it only has to be reproducible
+    ctx.label("rejected:" + api);
     return;
   }
   if ((int)a.size() != c.nbsimu * c.nvar)
@@ -607,16 +611,16 @@ struct FftCase
 static FftCase genFft()
 {
   FftCase c;
-  int ndim = G::pick<int>({1, 2, 2, 2, 3});
+  int ndim = G::pick<int>({1, 2, 2, 2, 2, 2, 3});
   c.T = genTargets(ndim, ndim == 3 ? 216 : 400, 1, true);
   for (auto& v : c.T.nx) v = std::max(v, 2); // simfft does not return on a grid with a single node along one axis (see report)
-  double dxmax = 0;
-  for (double d : c.T.dx) dxmax = std::max(dxmax, d);
+  double dxmin = 1e300;
+  for (double d : c.T.dx) dxmin = std::min(dxmin, d);
   int ns = G::i(1, 2);
   for (int k = 0; k < ns; k++)
   {
     Struc s = genStruc(ndim, 1, 1., {S_EXPO, S_SPHE, S_CUBIC, S_GAUSS, S_MATERN}, false);
-    s.range = dxmax * G::lu(0.5, ndim == 3 ? 4. : 15.); // keeps the dilated grid small
+    s.range = dxmin * G::lu(0.5, ndim == 3 ? 3. : 12.); // keeps the dilated grid small (3-D: a few 10^4 nodes)
     c.strucs.push_back(s);
   }
   if (G::pct(20))
@@ -646,6 +650,7 @@ static int callFft(const FftCase& c, int seed, Cols& out)
 }
 static void runFft(const FftCase& c, Ctx& ctx)
 {
+  struct Tm { clock_t t0 = clock(); const FftCase& c; ~Tm() { if (getenv("VERIF_TIMING")) diag(fmt("T %.3f ndim=%d nt=%d range=%.3g dx0=%.3g nbsimu=%d alias=%d pct=%g", (double)(clock() - t0) / CLOCKS_PER_SEC, c.T.ndim, c.T.n(), c.strucs[0].range, c.T.dx[0], c.nbsimu, c.aliasing, c.percent)); } } tm{clock(), c};
   resetGlobals(c.T.ndim);
   ctx.label(fmt("ndim:%d", c.T.ndim));
   ctx.label(c.nbsimu > 1 ? "nbsimu:>1" : "nbsimu:1");
@@ -722,7 +727,7 @@ static SpdeCase genSpde()
     c.place = genPlacement(nt, nd, 0);
     for (int k = 0; k < nd; k++) c.z.push_back(G::r(-16, 16, 8));
   }
-  c.cholesky = G::pct(70) ? 1 : 0;
+  c.cholesky = G::pct(96) ? 1 : 0; // the Chebyshev variant costs ~1.3 s per call whatever the mesh
   c.refine = G::i(2, 4);
   c.border = G::i(1, 3);
   c.userMesh = G::pct(40) ? 1 : 0;
@@ -769,6 +774,7 @@ static int callSpde(const SpdeCase& c, int seed, Cols& out)
 }
 static void runSpde(const SpdeCase& c, Ctx& ctx)
 {
+  struct Tm { clock_t t0 = clock(); const SpdeCase& c; ~Tm() { if (getenv("VERIF_TIMING")) diag(fmt("T %.3f chol=%d user=%d cond=%d nt=%d refine=%d border=%d range/L=%.2f nbsimu=%d", (double)(clock() - t0) / CLOCKS_PER_SEC, c.cholesky, c.userMesh, c.cond, c.T.n(), c.refine, c.border, c.strucs[0].range / c.T.extent(), c.nbsimu)); } } tm{clock(), c};
   resetGlobals(c.T.ndim);
   ctx.label(c.cond ? "cond" : "noncond");
   ctx.label(c.cholesky ? "solver:cholesky" : "solver:chebyshev");
@@ -1067,7 +1073,7 @@ static void runGibbs(const GibbsCase& c, Ctx& ctx)
       if (ok && hasUp) ok = y <= up + 1e-9 * (1. + std::fabs(up));
       if (!ok)
       {
-        std::string key = c.nburn == 0 ? "gibbs:bounds:nburn0" : ((hasLo != hasUp) ? "gibbs:bounds:one-sided" : "gibbs:bounds");
+        std::string key = (hasLo != hasUp) ? "gibbs:bounds:one-sided" : (c.nburn == 0 ? "gibbs:bounds:nburn0" : "gibbs:bounds");
         ctx.fail(key, fmt("simulation %d sample %d = %.17g outside [%s, %s]", s + 1, i, y, hasLo ? fmt("%.17g", lo).c_str() : "NA",
                           hasUp ? fmt("%.17g", up).c_str() : "NA"));
         return;
@@ -1274,7 +1280,7 @@ static void runPgs(const PgsCase& c, Ctx& ctx)
   const double ttol = 1e-4; // the library's quantile function is accurate to ~1e-6
   bool checked = false;
   int nd = (int)c.place.size();
-  const std::string pk = (ngrf == 2 && c.nbsimu > 1) ? "pgs:2grf-multisimu:" : "pgs:";
+  const std::string pk = (ngrf == 2 && c.nbsimu > 1) ? "pgs:2grf-multisimu:" : (nd == 1 ? "pgs:single-datum:" : "pgs:");
   if (c.cond)
   {
     if (c.gaus) w.rule->setProportions(toVD(c.props));
@@ -1288,7 +1294,29 @@ static void runPgs(const PgsCase& c, Ctx& ctx)
         {
           double got = a[(size_t)s][(size_t)t];
           if (got != (double)f)
-          { ctx.fail(pk + "data-facies", fmt("simulation %d at the node of datum %d: facies %g, observed %d", s + 1, k, got, f)); return; }
+          {
+            // the same call with flag_gaus delivers the gaussians behind these facies: is the conditioning value
+            // sitting exactly on a threshold of its facies (closed interval on both sides) ?
+            PgsCase cg = c;
+            cg.gaus = 1;
+            Cols g;
+            PgsWorld wg;
+            bool onThr = false;
+            if (callPgs(cg, c.seed, g, &wg) == 0 && (int)g.size() == ngrf * c.nbsimu)
+            {
+              wg.rule->setProportions(toVD(c.props));
+              VectorDouble th = wg.rule->getThresh(f);
+              for (int gi = 0; gi < ngrf && th.size() == 4; gi++)
+              {
+                double yy = g[(size_t)(gi * c.nbsimu + s)][(size_t)t];
+                onThr = onThr || sameBits(yy, th[(size_t)(2 * gi)]) || sameBits(yy, th[(size_t)(2 * gi + 1)]);
+              }
+            }
+            ctx.fail(pk + (onThr ? "on-threshold:data-facies" : "data-facies"),
+                     fmt("simulation %d at the node of datum %d: facies %g, observed %d%s", s + 1, k, got, f,
+                         onThr ? " (conditioning gaussian exactly on a threshold)" : ""));
+            return;
+          }
           continue;
         }
         double y[2] = {a[(size_t)s][(size_t)t], ngrf == 2 ? a[(size_t)(c.nbsimu + s)][(size_t)t] : 0.};
@@ -1303,8 +1331,13 @@ static void runPgs(const PgsCase& c, Ctx& ctx)
           }
         }
         int flib = w.rule->getFaciesFromGaussian(y[0], y[1]);
+        bool onThr = false;
+        {
+          VectorDouble th = w.rule->getThresh(f);
+          for (int g = 0; g < ngrf && th.size() == 4; g++) onThr = onThr || sameBits(y[g], th[(size_t)(2 * g)]) || sameBits(y[g], th[(size_t)(2 * g + 1)]);
+        }
         if (flib != f)
-        { ctx.fail(pk + "data-gauss-rule", fmt("simulation %d: gaussians (%.17g, %.17g) at datum %d give facies %d, observed %d", s + 1, y[0], y[1], k, flib, f)); return; }
+        { ctx.fail(pk + (onThr ? "on-threshold:data-gauss-rule" : "data-gauss-rule"), fmt("simulation %d: gaussians (%.17g, %.17g) at datum %d give facies %d, observed %d", s + 1, y[0], y[1], k, flib, f)); return; }
       }
     }
   }
